@@ -17,8 +17,8 @@ import (
 
 type c04Service struct {
 	Name     string   `json:"name"`
-	Hosts    []string `json:"hosts"`    // as normalised ("" = no host)
-	Prefixes []string `json:"prefixes"` // as normalised
+	Hosts    []string `json:"hosts"`        // as normalised ("" = no host)
+	Prefixes []string `json:"prefixes"`     // as normalised
 	RawPfx   []string `json:"raw_prefixes"` // as the operator typed them
 }
 
